@@ -220,7 +220,9 @@ func (l *Lexer) string(quoteChar byte) (Token, error) {
 		l.advance()
 	}
 	if l.atEnd() {
-		return l.errorToken(), l.error(l.tokenStart+1, "unexpected EOF while reading string")
+		// point at the opening quote: it is always part of the program text,
+		// the byte after it is not when the quote is the last byte
+		return l.errorToken(), l.error(l.tokenStart, "unexpected EOF while reading string")
 	}
 	l.advance()
 	l.tokenStart++ // skip over the opening quote
@@ -264,6 +266,10 @@ func (l *Lexer) GetLineAndCol(pos int) (string, int, int) {
 			col = i - lineStart
 		}
 	}
+	if !inLine && pos >= len(l.src) {
+		// the end of the text: just past the last byte of the last line
+		col = len(l.src) - lineStart
+	}
 	return l.src[lineStart:], line, col
 }
 
@@ -280,6 +286,8 @@ func (l *Lexer) error(pos int, msg string) SyntaxError {
 func (l *Lexer) Next() (Token, error) {
 	l.skipWhitespace()
 	if l.atEnd() {
+		// the EOF token sits at the end of the text, not on whatever token came last
+		l.tokenStart = l.pos
 		return l.simpleToken(EOF), nil
 	}
 
